@@ -619,6 +619,7 @@ def run(ctx):
                          "against the denotational semantics of the statement (union of the named types, allOf = own + inherited requirements, additionalProperties decides unnamed keys); "
                          "non-trivial = document with a container validated against a schema with a union")
     ctx.classifiers["bare_example_key_type"] = lambda case: isinstance(case, dict) and case.get("cls") == "bare-key-type"
+    ctx.classifiers["plain_key_spelled_like_a_key_shortcut"] = lambda case: isinstance(case, dict) and case.get("cls") == "plain-key-spelled-like-shortcut"
     ctx.assumptions += ["decided by comparison with a python transcription of the statement's set semantics (differential), no Coq model of the multi-leaf validator: partial"]
     cases = []
     n = 4000 if quick else 20000
